@@ -150,29 +150,26 @@ Proof.
   repeat split; try (vm_compute; reflexivity); eexists; split; vm_compute; reflexivity.
 Qed.
 
-(* ---------- pipeline(output, **kwargs): the property is FALSE of the code (known findings) ---------- *)
-(* Full statement (not provable):
-     forall p o kw, spec_ok (CCall p o kw false) (run (CCall p o kw false)) = true
-   i.e. a call with a missing or a surplus keyword is rejected before any user function is invoked.
-   Pipeline.run (model: Pipe.run, tied to the code by C02's and this check's correspondence) discovers a missing
-   argument lazily and an unused keyword only after the evaluation; witnesses (replayed on the real code on every
-   run, reported as KNOWN-FINDING run-missing-input-after-calls / run-surplus-input-after-calls): *)
-Theorem C12_run_rejects_before_calls_refuted :
-  (exists p o kw, call_in_scope p o kw = true /\ call_missing p o kw = true
-                  /\ spec_ok (CCall p o kw false) (run (CCall p o kw false)) = false)
-  /\ (exists p o kw, call_in_scope p o kw = true /\ call_surplus p o kw = true
-                     /\ spec_ok (CCall p o kw false) (run (CCall p o kw false)) = false).
-Proof.
-  split.
-  - exists [Pipe.mkf (s "f0") [s "o0"] [(s "z", s "z"); (s "y", s "y")] [] [(s "y", s "B0_y")] false;
-            Pipe.mkf (s "f1") [s "o1"] [(s "o0", s "o0"); (s "y", s "y")] [] [] false],
-           (s "o1"), [(s "z", s "v_z")].
-    repeat split; vm_compute; reflexivity.
-  - exists [Pipe.mkf (s "f2") [s "o2"] [(s "x", s "x"); (s "o0", s "o0")] [] [(s "o0", s "B2_o0")] false],
-           (s "o2"), [(s "x", s "v_x"); (s "zz", s "v_zz")].
-    repeat split; vm_compute; reflexivity.
-Qed.
-Print Assumptions C12_run_rejects_before_calls_refuted.
+(* ---------- pipeline(output, **kwargs) ---------- *)
+(* Since the repair "validate the keyword arguments of Pipeline.run before executing anything" (model:
+   Pipe.run_checked = Pipe.run_precheck, then the evaluation Pipe.run) a call with a missing or a surplus keyword
+   is rejected with an EMPTY call log; before it the statement was refuted (former known findings
+   run-missing-input-after-calls / run-surplus-input-after-calls). *)
+Theorem C12_run_rejects_before_calls : forall p o kw,
+  spec_ok (CCall p o kw false) (run (CCall p o kw false)) = true.
+Proof. exact model_meets_spec_call. Qed.
+Print Assumptions C12_run_rejects_before_calls.
+
+(* the two former witnesses *)
+Example C12_example_run_rejected_up_front :
+  Pipe.run_checked Pipe.Sym.body Pipe.Sym.pick
+    [Pipe.mkf (s "f0") [s "o0"] [(s "z", s "z"); (s "y", s "y")] [] [(s "y", s "B0_y")] false;
+     Pipe.mkf (s "f1") [s "o1"] [(s "o0", s "o0"); (s "y", s "y")] [] [] false]
+    (s "o1") [(s "z", s "v_z")] false = (Err ValueError, [])
+  /\ Pipe.run_checked Pipe.Sym.body Pipe.Sym.pick
+    [Pipe.mkf (s "f2") [s "o2"] [(s "x", s "x"); (s "o0", s "o0")] [] [(s "o0", s "B2_o0")] false]
+    (s "o2") [(s "x", s "v_x"); (s "zz", s "v_zz")] false = (Err UnusedParametersError, []).
+Proof. split; vm_compute; reflexivity. Qed.
 
 (* ---------- non-vacuity ---------- *)
 Module Ex.
